@@ -354,6 +354,8 @@ type RelayCase struct {
 	C2S    Chunked `json:"client_to_server"`
 	S2C    Chunked `json:"server_to_client"`
 	Report bool    `json:"fetch_report"`
+	// Poll: the status report is requested repeatedly while the session's traffic is flowing.
+	Poll bool `json:"poll_report_during_session"`
 }
 
 func send(conn net.Conn, c Chunked) {
@@ -432,12 +434,34 @@ func checkRelay(c RelayCase, o *stats.Obs) error {
 	defer server.Close()
 	var gotUp, gotDown []byte
 	var wg sync.WaitGroup
+	stopPoll := make(chan struct{})
+	pollDone := make(chan struct{})
+	go func() {
+		defer close(pollDone)
+		if !c.Poll {
+			return
+		}
+		hc := &http.Client{Timeout: 2 * time.Second}
+		for {
+			select {
+			case <-stopPoll:
+				return
+			default:
+			}
+			if resp, err := hc.Get("http://" + p.controlAddr + "/status/report"); err == nil {
+				io.Copy(io.Discard, resp.Body)
+				resp.Body.Close()
+			}
+		}
+	}()
 	wg.Add(4)
 	go func() { defer wg.Done(); send(client, c.C2S) }()
 	go func() { defer wg.Done(); send(server, c.S2C) }()
 	go func() { defer wg.Done(); gotUp = recvN(server, len(c2s), 10*time.Second) }()
 	go func() { defer wg.Done(); gotDown = recvN(client, len(s2c), 10*time.Second) }()
 	wg.Wait()
+	close(stopPoll)
+	<-pollDone
 	p.c2sHistory = append(p.c2sHistory, c2s...)
 	alive := p.alive()
 	if !bytes.Equal(gotUp, c2s) {
@@ -501,6 +525,9 @@ func checkRelay(c RelayCase, o *stats.Obs) error {
 	if markup {
 		o.Class("markup-in-traffic")
 	}
+	if c.Poll {
+		o.Class("report-polled-during-session")
+	}
 	return nil
 }
 
@@ -522,7 +549,8 @@ func genChunked(t *rapid.T, label string) Chunked {
 }
 
 func genRelay(t *rapid.T) RelayCase {
-	return RelayCase{C2S: genChunked(t, "c2s"), S2C: genChunked(t, "s2c"), Report: rapid.IntRange(0, 2).Draw(t, "report") == 0}
+	return RelayCase{C2S: genChunked(t, "c2s"), S2C: genChunked(t, "s2c"), Report: rapid.IntRange(0, 2).Draw(t, "report") == 0,
+		Poll: rapid.IntRange(0, 2).Draw(t, "poll") == 0}
 }
 
 var propRelay = stats.Prop(R, "relay", genRelay, checkRelay)
